@@ -207,10 +207,14 @@ func (lex *Lexer) call(state int, fnext int) {
 }
 
 func (lex *Lexer) ret(n int) {
-	lex.top = lex.top - n
-	if lex.top < 0 {
-		lex.top = 0
+	if n > lex.top {
+		// unbalanced closing brace: there is no state to return to,
+		// stay in the current one
+		lex.p++
+		return
 	}
+
+	lex.top = lex.top - n
 	lex.cs = lex.stack[lex.top]
 	lex.p++
 }
